@@ -239,12 +239,12 @@ class IS:
                 return OTHER
             if base[0] == "grid" and a == "eta_grid":
                 n = len(base[1]) if base[1] is not None else 4
-                return eta_grid_tag()[:n]
+                return DimList(eta_grid_tag()[:n])
             if base[0] in ("layout", "grid"):
                 return (base[0] + "." + a, base)
             if base[0] == "constants":
                 if a == "npts":
-                    return [("size", G(d)) for d in range(4)]
+                    return DimList([("size", G(d)) for d in range(4)])
                 return OTHER
         return OTHER
 
@@ -340,14 +340,14 @@ class IS:
             idx = self.ev(e.slice)
             if isinstance(idx, tuple) and idx[0] in ("lit", "dim") and isinstance(idx[1], int) and -len(base) <= idx[1] < len(base):
                 return base[idx[1]]
-            if isinstance(idx, tuple) and idx[0] == "param":
+            if isinstance(idx, tuple) and idx[0] == "param" and isinstance(base, DimList):
                 self.sort_req.setdefault(idx[1], []).append(("dim", e))
                 d = ("param", idx[1])
                 return retag(base[0], d) if base else OTHER
-            if isinstance(idx, tuple) and idx[0] == "dim" and isinstance(idx[1], tuple):
+            if isinstance(idx, tuple) and idx[0] == "dim" and isinstance(idx[1], tuple) and isinstance(base, DimList):
                 self.ob("C-sort", e, True, f"`{src(e.value)}` (ordered by dimension) subscripted by a dimension number", construct=src(e))
                 return retag(base[0], idx[1]) if base else OTHER
-            if isinstance(idx, tuple) and idx[0] in ("axis", "axis_of"):
+            if isinstance(idx, tuple) and idx[0] in ("axis", "axis_of") and isinstance(base, DimList):
                 self.ob("C-sort", e, False, f"`{src(e.value)}` is ordered by dimension but is subscripted by a layout axis `{src(e.slice)}`")
             return OTHER
         if is_arr(base):
@@ -918,8 +918,16 @@ def ambient_from_asserts(fn: ast.FunctionDef):
 # class-level drivers
 # --------------------------------------------------------------------------
 
+class DimList(list):
+    """a python list ordered by physical dimension (eta_grid, _Vals, _splines, npts, ...)"""
+
+    def __getitem__(self, k):
+        r = list.__getitem__(self, k)
+        return DimList(r) if isinstance(k, slice) else r
+
+
 def eta_grid_tag():
-    return [arr((G(d),), ("coord", d)) for d in range(4)]
+    return DimList([arr((G(d),), ("coord", d)) for d in range(4)])
 
 
 def layout_param(order=None, ndist=None):
